@@ -20,6 +20,8 @@ import (
 // ---------- C07: TWKB decode(encode(g,p)) is g rounded to p places; headers tell the truth ----------
 
 type C07Case struct {
+	// RawHex: when set the case is raw TWKB bytes (native fuzzing / replay): decode-encode-decode fixpoint only.
+	RawHex string  `json:"raw_hex,omitempty"`
 	G      gm.G    `json:"g"`
 	PrecXY int     `json:"prec_xy"`
 	PrecZ  int     `json:"prec_z"` // -99 = option not given
@@ -520,6 +522,11 @@ func (st *c07State) compare(where string, want gm.G, node codec.TWKBNode, got gm
 }
 
 func c07Check(c C07Case, cx *h.Ctx) *h.Failure {
+	if c.RawHex != "" {
+		b, _ := hex.DecodeString(c.RawHex)
+		cx.Class("raw-bytes")
+		return c07Raw(b)
+	}
 	model := c.G.Norm()
 	g := c.G.ToGeom()
 	cx.Class("type=" + model.T)
